@@ -64,7 +64,17 @@ def fingerprint(o, depth=0):
     d = getattr(o, '__dict__', None)
     if d is None:
         return repr(type(o))
-    return (type(o).__name__,) + tuple(sorted((k, fingerprint(v, depth + 1)) for k, v in d.items()
+    # the PUBLIC state: attributes without a leading underscore plus the values of public properties (Domain keeps length, dr, dk
+    # behind properties).  A private cache that a call leaves on an object is not "a modification of the System" - if it
+    # changes any behaviour the other clauses (wiring, SweepEqualsFresh, later creations) see it
+    items = {k: v for k, v in d.items() if not k.startswith('_')}
+    for k in dir(type(o)):
+        if not k.startswith('_') and isinstance(getattr(type(o), k, None), property):
+            try:
+                items[k] = getattr(o, k)
+            except Exception as ex:      # noqa
+                items[k] = 'raises ' + type(ex).__name__
+    return (type(o).__name__,) + tuple(sorted((k, fingerprint(v, depth + 1)) for k, v in items.items()
                                               if not (callable(v) and not hasattr(v, 'calculate'))))
 
 
